@@ -157,6 +157,8 @@ def gen(rng, tier, i):
     maxlen = min(maxlen, max(64, cap * (300 if tls_any else 3000)))
     if splice:
         maxlen = min(maxlen, 400000)
+    if lk == "quic" or ck in ("quic", "chain-quic"):
+        maxlen = min(maxlen, 1 << 20)   # QUIC (real quinn + rustls per packet) is the slowest path in wall time
     for t in range(ntun):
         seed = rng.getrandbits(60) | 1
         lens = []
@@ -202,7 +204,7 @@ def gen(rng, tier, i):
                "tunnels": tunnels, "lk": lk, "ck": ck, "splice": bool(splice), "chaos": chaos_name}
     sc.settle_ms = 0
     sc.max_ms = 4 * 7200000
-    return sc.plan(want_events=False)
+    return sc.plan(want_events=False, watchdog_s=600 if thorough else 120)
 
 
 def reply_ok(proto, rec):
